@@ -22,6 +22,12 @@ func (s *VerifHTTPSvc) Echo(ctx context.Context, x int64) (int64, error) {
 	return x, nil
 }
 
+// Fail is a method that refuses: its error is the reply the caller must receive.
+func (s *VerifHTTPSvc) Fail(ctx context.Context, x int64) (int64, error) {
+	s.seen = append(s.seen, x)
+	return 0, errors.New("verif: refused")
+}
+
 // verifRecorder is the http.ResponseWriter of the in-process network.
 type verifRecorder struct {
 	hdr    http.Header
@@ -134,7 +140,7 @@ func VerifC17HTTP() {
 		var err error
 		bad := 0
 		if verifapi.Param("badcalls", 0) == 1 {
-			bad = verifapi.Choose(fmt.Sprint("badcall", i), 5)
+			bad = verifapi.Choose(fmt.Sprint("badcall", i), 6)
 		}
 		switch bad {
 		case 0:
@@ -147,6 +153,23 @@ func VerifC17HTTP() {
 			err = client.Call(context.Background(), &got, "echo", tok, tok)
 		case 4: // a wrongly typed parameter
 			err = client.Call(context.Background(), &got, "echo", "text")
+		case 5: // a served call that the method refuses: the error reply is a message like any other
+			err = client.Call(context.Background(), &got, "fail", tok)
+			ran := len(svc.seen) - before
+			verifapi.Assert(ran <= 1, "c17.http-message-handled-at-most-once")
+			verifapi.Assert(err != nil, "c17.http-refusal-is-an-error")
+			if rt.faults == faults {
+				e, ok := err.(*ErrResponse)
+				verifapi.Assert(ok && ran == 1, "c17.http-error-reply-delivered-as-sent")
+				if ok {
+					verifapi.Assert(e.Code == ErrCodeInternal && e.Message == "verif: refused", "c17.http-error-reply-delivered-as-sent")
+				}
+			}
+			if ran >= 1 {
+				verifapi.Assert(svc.seen[before] == tok, "c17.http-message-intact")
+				sent = append(sent, tok)
+			}
+			continue
 		}
 		if bad != 0 {
 			// C16 over HTTP: not served, and answered with an error (unless the transport failed first)
